@@ -57,6 +57,12 @@ fn values() -> Vec<(&'static str, PropertyValue)> {
         ("float_half", P::Float(0.5)),
         ("float_negzero", P::Float(-0.0)),
         ("float_1e19", P::Float(1e19)),
+        // whole floats in and at the edge of the i64 range: a writer that prints them without a
+        // fraction (or through an integer) brings them back as Integer, or saturated
+        ("float_2p53", P::Float(9_007_199_254_740_992.0)),
+        ("float_1e18", P::Float(1e18)),
+        ("float_neg2p63", P::Float(-9_223_372_036_854_775_808.0)),
+        ("float_2p63", P::Float(9_223_372_036_854_775_808.0)),
         ("float_subnormal", P::Float(5e-324)),
         ("float_max", P::Float(f64::MAX)),
         ("float_nan", P::Float(f64::NAN)),
